@@ -3,6 +3,7 @@
   One request per line on stdin, one answer per line on stdout (see Fir/Model/Proto*.lean).
 -/
 import Fir.Model.ProtoAlpha
+import Fir.Model.ProtoConvert
 open Fir
 
 def handleLine (line : String) : String :=
@@ -14,6 +15,9 @@ def handleLine (line : String) : String :=
     match cmd with
     | "alpha" => handleAlpha fs
     | "alpha-reject" => handleAlphaReject fs
+    | "convert" => handleConvert fs
+    | "convert-rt" => handleConvertRt fs
+    | "convert-reject" => handleConvertReject fs
     | "ping" => "OK pong"
     | _ => "BAD-REQUEST unknown command " ++ cmd
 
